@@ -47,6 +47,7 @@ func vIsSym(x any) bool
 func vHang(what string)
 func vNative() bool
 func vHeld() int
+func vMapPad(m any, n int)
 func vSyncMapPut(m *sync.Map, k, v any) bool
 `
 
